@@ -52,7 +52,8 @@ def shiftNew (w : World NodeIds) : World NodeIds :=
 /-! ## `ref_node_eliminate_unused_globals` -/
 
 /-- `ref_sort_in_place_glob`: the sorted value list (the permutation used does not matter for values) -/
-def sortGlob (xs : List Int) : List Int := xs.mergeSort fun a b => decide (a ≤ b)
+def sortGlob (xs : List Int) : List Int :=
+  if NodeIds.isNondecr xs then xs else xs.mergeSort fun a b => decide (a ≤ b)
 
 /-- `ref_node_eliminate_unused_offset`: `offset` only grows; `rest` is `sorted_unused[offset..)`:
     `while (offset < nunused && sorted_unused[offset] < sorted_globals[i]) offset++; sorted_globals[i] -= offset` -/
